@@ -56,6 +56,11 @@ CLAIMS = {
 
  "C18": ("Structural necessary conditions of durable, consistent tables: the persisting function never opens the destination for writing and on every success path writes, syncs, then renames a temporary file over it (crash atomicity decided from the order and targets of the file-system calls on every path, with error nil-ness correlation); table fields accessed only under the table lock; password kept unless asked; keys canonicalised before use; full list flushed and pending lists cleared only after success; default admin only when the file is missing. Does not decide model equality of table contents over histories.",
          "SSA path-state over file-system effects + lockset", "DESIGN.md §3 C18"),
+
+ "C19": ("Complete static evaluation of the multiplexer's prefix tables (every RTSP method listed, OPTIONS in exactly the four RTSP forms, no RTSP entry captures an HTTP request line, overlaps resolved by registration order) and path-state facts on the hand-off (one send per connection after doneSniffing, unmatched connections closed, sniff deadline armed and cleared only when matched). Does not decide byte-exact replay of sniffed data for every chunking.",
+         "constant-table evaluation + SSA path-state", "DESIGN.md §3 C19"),
+ "C20": ("Structural necessary conditions of a well-behaved pull: every blocking read of the camera connection dominated by a configured read deadline, Open's failure paths disconnect (deferred closure over the named error result, every step's error stored there, first failure stops), the play goroutine's cleanup releases/unregisters/disconnects on every path and is registered first, authentication retries bounded with a checked final status, factory fails closed, SDP format reads guarded. Does not decide wire behaviour or racing first requests.",
+         "SSA dominance + path-state + call-graph cycle check", "DESIGN.md §3 C20"),
 }
 NA = {
 }
